@@ -17,6 +17,8 @@ TRUSTED = [
     'simdist: per-group FIFO matching, all_reduce/broadcast semantics, new_group ordering rule (the semantics of M-Sched); '
     'that gloo/NCCL implement this semantics is trusted',
     'forward hooks fire in registration order and backward hooks in reverse order for the sequential test models',
+    'simdist is itself cross-checked on every run against real forked gloo processes (collective sequence, gradients, '
+    'factors, memory, holdings) on a few configurations (more in the thorough tier)',
 ]
 ASSUMPTIONS = ['gradients are averaged across ranks before step() (done by the harness, not recorded)',
                'every rank executes the same history (SPMD)']
@@ -61,6 +63,20 @@ def run(ctx):
                          dict(cfg.describe(), sched_seed=cfg.sched_seed), 'schedule-dependent')
                 break
         ctx.count('schedule-pairs')
+    gloo_stream(ctx)
+
+
+def gloo_stream(ctx):
+    """the simulator itself is validated against real multi-process gloo on a few configurations"""
+    import gloo_crosscheck
+    rng = ctx.rng
+    for i in range(ctx.budget(4, 40)):
+        cfg = kfacsim.Config(rng, world=rng.choice([2, 2, 3, 4]))
+        cfg.ops = kfacsim.gen_history(rng, rng.randrange(2, 6), whole_iterations=True, accum=cfg.accum)
+        kfacsim.fix_loads(cfg)
+        diffs = gloo_crosscheck.crosscheck(ctx, cfg, sched_seed=ctx.seed + i)
+        ctx.compare('simdist-vs-real-gloo', dict(cfg.describe(), diffs=diffs[:3]), 'same', 'same' if not diffs else diffs[0])
+        ctx.count('gloo-crosscheck')
 
 
 def search(ctx):
